@@ -231,8 +231,10 @@ prop("C12", level="proof", bounded=[],
      notes=_RUN_NOTES)
 prop("C15", level="other", bounded=[],
      explanation="event emission proved: Step.run emits exactly one match and one result unless quiet; Scenario.run announces every "
-                 "step once in order; every emission site is a loop over all formatters (structural check). JSON/plain/progress "
-                 "content is bounded", notes=_RUN_NOTES)
+                 "step once in order; every emission site is a loop over all formatters (structural check); the result event "
+                 "carries the step's final status; plain formatter: the queue of announced steps is empty whenever a feature, "
+                 "rule, background or scenario starts; JSON formatter: header once (also for an empty report), features "
+                 "separated, footer once. JSON/plain/progress text content and JSON read-back are bounded", notes=_RUN_NOTES)
 prop("C09", level="other", bounded=[],
      explanation="proved: a not-selected scenario runs no hook, calls no step function, does not fail and ends with all steps "
                  "skipped (Scenario.run); effective_tags (generic and outline override) return exactly own plus inherited tags "
